@@ -279,6 +279,11 @@ class ChartRun(object):
       chart.recall()
     elif op == 'scribble':
       chart.scribble(f['text'])
+    elif op == 'clear_spy':
+      # a handler empties the spy log in the middle of a step (say at the start of a test phase)
+      if hasattr(chart, 'clear_spy'):
+        chart.clear_spy()
+        self.sim.probe('clear_spy_called_from_a_handler')
     elif op == 'stop':
       # an active object stops itself from one of its handlers (the last step of the history)
       if hasattr(chart, 'stop') and self.host in ('ao', 'factory'):
